@@ -24,9 +24,9 @@ def plan(tier, seed):
         out += [
             ("composite-0", 8, [("E5", {"with_typename": False, "kind": "request"}), "E1", "E3", ("E3", {"deep": True}), "E8", ("E6", {"both": True})]),
             ("composite-1", 10, [("E5", {"with_typename": False, "kind": "notification", "dollar": True}), "E2", "E4", "E8", ("E6", {"both": True}), ("E6", {"both": True})]),
-            ("composite-3", 6, [("E3", {"own": 0}), ("E5", {"kind": "notification", "with_typename": True, "params_last_new": True}), ("E3", {"own": 0}), ("E5", {"kind": "request", "with_typename": True, "params_last_new": True}), "E9", "E10", "E14", "E5_names"]),
+            ("composite-3", 6, [("E3", {"own": 0}), ("E5", {"kind": "notification", "with_typename": True, "params_last_new": True}), ("E3", {"own": 0}), ("E5", {"kind": "request", "with_typename": True, "params_last_new": True}), "E9", "E10", "E14", "E5_names", "E15"]),
             ("composite-4", 8, [("E8", {"mode": "optionality"}), ("E8", {"mode": "nullable"}), ("E8", {"mode": "literal"}), ("E8", {"mode": "denull"}), ("E8", {"mode": "denull"}), "E11", "E11", "E13"]),
-            ("composite-5", 2, ["E12", ("E5", {"kind": "request", "with_typename": True, "enum_result": True})]),
+            ("composite-5", 4, ["E12", ("E5", {"kind": "request", "with_typename": True, "enum_result": True}), "E16", "E17"]),
             ("composite-6", 9, [("E12", {"static": False}), ("E5", {"kind": "request", "with_typename": False}), ("E5", {"kind": "request", "with_typename": False, "unicode_method": True}), ("E5", {"kind": "notification", "with_typename": False}), ("E5", {"kind": "notification", "with_typename": False, "unicode_method": True}), "E4", ("E4", {"hostile": True}), "E4", ("E8", {"mode": "optionality"})]),
             ("composite-2", 10, ["E1", "E2", "E2", ("E5", {"with_typename": True, "kind": "request"}), "E7", "E6", ("E5", {"with_typename": False, "kind": "request", "dollar": True}), ("E3", {"deep": True})]),
         ]
@@ -47,7 +47,11 @@ def plan(tier, seed):
             if k % 5 == 3:
                 forced += [("E3", {"own": 0}), ("E5", {"kind": "notification", "params_last_new": True})]
             if k % 6 == 4:
-                forced += ["E14", "E5_names"]
+                forced += ["E14", "E5_names", "E15"]
+            if k % 12 == 11:
+                forced += ["E16"]
+            if k % 6 == 1:
+                forced += ["E17"]
             out.append(("composite-%d" % k, [2, 4, 8, 12][k % 4], forced))
     return out
 
